@@ -307,11 +307,27 @@ fn read_checksum(input: &[u8]) -> std::io::Result<u64> {
     Ok(u64::from(BigEndian::read_u32(&buf)))
 }
 
+/// Does `i` contain a complete (newline terminated) line that is empty or only whitespace?
+fn has_complete_blank_line(i: &[u8]) -> bool {
+    let mut lines = i.split(|b| *b == b'\n');
+    // what follows the last newline is not a complete line (yet)
+    lines.next_back();
+    lines.any(|line| line.iter().all(|b| matches!(b, b' ' | b'\t' | b'\r')))
+}
+
 pub fn header_parser(i: &[u8]) -> IResult<&[u8], (BlockType, Headers, bool)> {
     // https://www.rfc-editor.org/rfc/rfc9580.html#name-forming-ascii-armor
 
     let (i, prefix) = take_until("-----")(i)?;
     let has_leading_data = !prefix.is_empty();
+
+    // The armor headers are terminated by a blank line. As long as that line has not been read
+    // completely, more input is needed: the source may deliver the header in arbitrary pieces,
+    // and a partially read header line must not be mistaken for the end of the headers.
+    let (after_header_line, _) = armor_header_line(i)?;
+    if !has_complete_blank_line(after_header_line) {
+        return Err(nom::Err::Incomplete(nom::Needed::Unknown));
+    }
 
     // "An Armor Header Line, appropriate for the type of data" (returned as 'typ')
     // "Armor Headers" ('headers')
